@@ -30,7 +30,10 @@ type bugOptions struct {
 	titleQuery          []string
 	noQuery             []string
 	sortBy              string
+	sortByChanged       bool
 	sortDirection       string
+	sortDirChanged      bool
+	querySorted         bool // the query given as arguments has a sort qualifier
 	outputFormat        string
 	outputFormatChanged bool
 }
@@ -59,6 +62,8 @@ git bug status:open --by creation "foo bar" baz
 		PreRunE: execenv.LoadBackend(env),
 		RunE: execenv.CloseBackend(env, func(cmd *cobra.Command, args []string) error {
 			options.outputFormatChanged = cmd.Flags().Changed("format")
+			options.sortByChanged = cmd.Flags().Changed("by")
+			options.sortDirChanged = cmd.Flags().Changed("direction")
 			return runBug(env, options, args)
 		}),
 		ValidArgsFunction: completion.Ls(env),
@@ -134,6 +139,7 @@ func runBug(env *execenv.Env, opts bugOptions, args []string) error {
 		if err != nil {
 			return err
 		}
+		opts.querySorted = hasSortQualifier(assembled)
 	} else {
 		q = query.NewQuery()
 	}
@@ -391,25 +397,41 @@ func completeQuery(q *query.Query, opts bugOptions) error {
 		}
 	}
 
+	// The sort qualifier of the query is overridden by --by and --direction when they are given;
+	// their default values are for a query without sort qualifier.
+	var orderBy query.OrderBy
 	switch opts.sortBy {
 	case "id":
-		q.OrderBy = query.OrderById
+		orderBy = query.OrderById
 	case "creation":
-		q.OrderBy = query.OrderByCreation
+		orderBy = query.OrderByCreation
 	case "edit":
-		q.OrderBy = query.OrderByEdit
+		orderBy = query.OrderByEdit
 	default:
 		return fmt.Errorf("unknown sort flag %s", opts.sortBy)
 	}
+	if opts.sortByChanged || !opts.querySorted {
+		q.OrderBy = orderBy
+	}
 
+	var orderDirection query.OrderDirection
 	switch opts.sortDirection {
 	case "asc":
-		q.OrderDirection = query.OrderAscending
+		orderDirection = query.OrderAscending
 	case "desc":
-		q.OrderDirection = query.OrderDescending
+		orderDirection = query.OrderDescending
 	default:
 		return fmt.Errorf("unknown sort direction %s", opts.sortDirection)
 	}
+	if opts.sortDirChanged || !opts.querySorted {
+		q.OrderDirection = orderDirection
+	}
 
 	return nil
+}
+
+// hasSortQualifier tells if a query that parses has a sort qualifier: the parser refuses a second one.
+func hasSortQualifier(assembled string) bool {
+	_, err := query.Parse(assembled + " sort:id")
+	return err != nil
 }
